@@ -872,3 +872,78 @@ Lemma CP_reset_old_inexact :
   /\ nth_error (i_alg reset_old_witness) 0 = Some (construct [111] (Some 0) (Some (7, 7, 7)%Z))
   /\ reset_ptab reset_old_witness 3 [84] [116] [109] = Some [].
 Proof. vm_compute. repeat split; reflexivity. Qed.
+
+(* ===== L. indexed() does not depend on the iteration order of the table ======= *)
+From Coq Require Import Permutation Sorted.
+
+Definition le_id (a b : name * nat) : Prop := snd a <= snd b.
+Definition leb_id (a b : name * nat) : bool := Nat.leb (snd a) (snd b).
+
+Lemma CP_sinsert_perm : forall x l, Permutation (sinsert leb_id x l) (x :: l).
+Proof.
+  intros x l. induction l as [|y l IH]; cbn; [reflexivity|].
+  destruct (leb_id x y); [reflexivity|].
+  rewrite IH. apply perm_swap.
+Qed.
+
+Lemma CP_ssort_perm : forall l, Permutation (ssort leb_id l) l.
+Proof.
+  induction l as [|x l IH]; cbn; [reflexivity|].
+  rewrite CP_sinsert_perm. now constructor.
+Qed.
+
+Lemma CP_sinsert_sorted : forall x l,
+  StronglySorted le_id l -> StronglySorted le_id (sinsert leb_id x l).
+Proof.
+  intros x l H. induction H as [|y l Hs IH Hy]; cbn.
+  - constructor; constructor.
+  - unfold leb_id at 1. destruct (Nat.leb_spec (snd x) (snd y)).
+    + constructor; [constructor; assumption|]. constructor; [exact H|].
+      rewrite Forall_forall in *. intros z Hz. specialize (Hy z Hz). unfold le_id in *. lia.
+    + constructor; [exact IH|].
+      rewrite Forall_forall in *. intros z Hz.
+      apply (Permutation_in _ (CP_sinsert_perm x l)) in Hz. destruct Hz as [<-|Hz].
+      * unfold le_id. lia.
+      * auto.
+Qed.
+
+Lemma CP_ssort_sorted' : forall l, StronglySorted le_id (ssort leb_id l).
+Proof.
+  induction l as [|x l IH]; cbn; [constructor|]. now apply CP_sinsert_sorted.
+Qed.
+
+Lemma CP_sorted_unique : forall l1 l2,
+  StronglySorted le_id l1 -> StronglySorted le_id l2 -> Permutation l1 l2 ->
+  NoDup (map snd l1) -> l1 = l2.
+Proof.
+  induction l1 as [|a l1 IH]; intros l2 S1 S2 P Hnd.
+  - apply Permutation_nil in P. now subst.
+  - destruct l2 as [|b l2]; [apply Permutation_sym, Permutation_nil in P; discriminate|].
+    inversion S1 as [|? ? S1' Ha]; subst. inversion S2 as [|? ? S2' Hb]; subst.
+    assert (a = b) as <-.
+    { assert (Hain : In a (b :: l2)) by (eapply Permutation_in; [exact P|now left]).
+      assert (Hbin : In b (a :: l1)) by (eapply Permutation_in; [apply Permutation_sym; exact P|now left]).
+      destruct Hain as [->|Hain]; [reflexivity|]. destruct Hbin as [->|Hbin]; [reflexivity|].
+      rewrite Forall_forall in Ha, Hb. pose proof (Ha _ Hbin). pose proof (Hb _ Hain).
+      unfold le_id in *. assert (snd a = snd b) by lia.
+      inversion Hnd as [|? ? Hna _]; subst. exfalso. apply Hna.
+      rewrite H1. now apply in_map. }
+    f_equal. apply IH; auto.
+    + eapply Permutation_cons_inv; eauto.
+    + now inversion Hnd.
+Qed.
+
+Theorem CP_indexed_any_order : forall t i t',
+  I_tab t i -> Permutation t t' -> indexed t' = i.
+Proof.
+  intros t i t' Hi P. rewrite <- (CP_indexed _ _ Hi). unfold indexed. f_equal.
+  change (fun a b : name * nat => Nat.leb (snd a) (snd b)) with leb_id.
+  apply CP_sorted_unique.
+  - apply CP_ssort_sorted'.
+  - apply CP_ssort_sorted'.
+  - rewrite !CP_ssort_perm. now apply Permutation_sym.
+  - eapply Permutation_NoDup.
+    + apply Permutation_map, Permutation_sym. etransitivity; [apply CP_ssort_perm|].
+      apply Permutation_sym. exact P.
+    + rewrite (CP_ids_gap_free _ _ Hi). apply seq_NoDup.
+Qed.
